@@ -196,9 +196,10 @@ BadAhBanner(e, ah) ==
 (* input.  Result: [m, out, reads (0/1), freemem]                          *)
 (***************************************************************************)
 StripNl(line) ==
-  LET n == Len(line) IN
-  IF n >= 2 /\ line[n] = NL /\ line[n - 1] = 13 THEN SubSeq(line, 1, n - 2)
-  ELSE IF n >= 1 /\ line[n] = NL THEN SubSeq(line, 1, n - 1) ELSE line
+  LET n == Len(line)
+      a == IF n >= 1 /\ line[n] = NL THEN SubSeq(line, 1, n - 1) ELSE line
+      k == Len(a)
+  IN IF k >= 1 /\ a[k] = 13 THEN SubSeq(a, 1, k - 1) ELSE a
 
 SupportedAh(n, ah) == (n = 16 /\ ah \in {10, 19}) \/ (n = 33 /\ ah \in {1, 2, 10})
 ReadsStdin(n, ah) == n = 33 /\ ah \in {1, 10}
